@@ -375,6 +375,7 @@ class Engine(ExprMixin, StmtMixin, CallMixin):
         for nm, sort in spec.hints.get('locals', {}).items():
             v, st = self.fresh_of_sort(sort, nm, st)
             st.loc[nm] = v
+            self.init_vals[nm] = v
         for r in list(self.init_vals.values()):
             if isinstance(r, RefV):
                 self.tracked_refs.add(r.id)
@@ -428,6 +429,8 @@ class Engine(ExprMixin, StmtMixin, CallMixin):
         if out[0] == 'return':
             res = out[1]
             extra = {'result': res}
+            for k, v in st.loc.items():
+                extra['_f_' + k] = v           # final value of local k (used by fragment contracts)
             for label, text in spec.ensures:
                 val, facts = self.contract_bool(text, st, extra, init=True)
                 self.add_oblig('post[%s]' % label, 'post', st, val, facts)
